@@ -98,35 +98,36 @@ Theorem C03_wds_wildcard_request_removed :
 Proof. exact wds_wildcard_request_removed. Qed.
 Print Assumptions C03_wds_wildcard_request_removed.
 
-(* "nothing the client still needs is removed" is FALSE for on-demand workload subscriptions:
-   finding C03-ondemand-empty-request-removes-all-watched.  Witness: index {11}, subscribe [11; 12],
-   then unsubscribe [12]: the answer removes 11, which exists and is still subscribed. *)
-Theorem C03_removed_sound_ondemand_refuted :
-  exists v r, fst k_run = [(ADDR, v, Some r)] /\ In 11 (rs_removed r) /\ exists_addr k_idx 11 /\
-              In 11 (record (snd k_run) ADDR).
-Proof. exact ondemand_removes_existing. Qed.
-Print Assumptions C03_removed_sound_ondemand_refuted.
-
-(* what does hold: whenever the workload generator answers delta-aware (every push event, every
-   on-demand request that resolves to at least one address), no existing address is removed *)
-Theorem C03_removed_sound_ondemand_partial :
-  forall idx ty q v x,
-    g_used (wds_generate idx ty q v) = true ->
+(* removed_sound for the workload types (Address / Workload), on the response pushDeltaXds actually
+   sends: on an on-demand stream (requests and push events alike) and for push events on a wildcard
+   stream, no address that exists is ever removed - for every session state, ResourceDelta, index and
+   request.  (Full strength since /repo fix 121b6aa; before it an on-demand request resolving to no
+   address was answered as full state and every watched name was removed.) *)
+Theorem C03_removed_sound_ondemand :
+  forall st t d idx q n v r x,
+    given st t d = Some v ->
     (snd v = false \/ w_isreq q = false) ->
-    In x (oget (g_del (wds_generate idx ty q v))) -> ~ exists_addr idx x.
-Proof. exact wds_removed_sound_partial. Qed.
-Print Assumptions C03_removed_sound_ondemand_partial.
+    resp_of (push_delta_xds st t d (wds_generate idx t q) n) = Some r ->
+    In x (rs_removed r) -> ~ exists_addr idx x.
+Proof. exact wds_removed_sound. Qed.
+Print Assumptions C03_removed_sound_ondemand.
+
+(* regression of the former finding: index {11}, subscribe [11; 12], then unsubscribe [12]: the answer
+   is an empty delta, 11 stays subscribed and is not removed *)
+Example C03_ondemand_unsubscribe_regression :
+  exists v, fst k_run = [(ADDR, v, Some (mkResp [] []))] /\ In 11 (record (snd k_run) ADDR).
+Proof. exact ondemand_regression. Qed.
 
 (* The H_delta premise of C03_delta_eq_spec cannot be dropped: a delta-aware answer that forgets one
    removal leaves the client with a resource that does not exist, and the server still believes the
-   client holds it.  The real BuildDeltaClusters gives such answers when a service port with more than
-   one cluster (plain + subset) is removed: finding C03-delta-cds-port-removal-keeps-sibling-cluster. *)
-Theorem C03_delta_eq_spec_needs_hdelta_refuted :
+   client holds it.  (The real BuildDeltaClusters gave such answers for a removed service port with a
+   plain and a subset cluster until /repo fix 9e904ce; the HDelta cases sample H_delta on that input.) *)
+Theorem C03_hdelta_premise_necessary :
   let s := hrun (mkSys empty_watched (fun _ => []) hd_g0) hd_ops in
   lookup 7 (s_world s CDS) = None /\ lookup 7 (s_cl s CDS) = Some 1 /\ In 7 (record (s_srv s) CDS) /\
   ~ (forall n, lookup n (c_upsert (c_remove (hd_g0 CDS) [6]) [(4, 2)]) = lookup n (hd_g1 CDS)).
 Proof. exact hdelta_needed. Qed.
-Print Assumptions C03_delta_eq_spec_needs_hdelta_refuted.
+Print Assumptions C03_hdelta_premise_necessary.
 
 (* ------------------------------------------------------------------ hypotheses are satisfiable *)
 
